@@ -2,13 +2,13 @@ SPECIFICATION Spec
 CONSTANTS
   Replicas = {1, 2, 3}
   Pool <- MCPool
-  PoolSize = 8
+  PoolSize = 9
   Limit = 3
   MaxDepth = 10
   MaxLevel = 0
   InitBases <- MCInitBases
-  Crafts <- CraftsQuick
+  Crafts <- CraftsSim
   Perms = {"owner", "writer", "anyone"}
-  Thirds = {"same", "perm", "addr"}
+  Thirds = {"same", "perm", "addr", "owner"}
 INVARIANTS Emit
 CHECK_DEADLOCK FALSE
